@@ -9,7 +9,7 @@ Theorem tie_set_startbit :
 Proof.
   intros. unfold gen_set_startbit, set_startbit, numbering_differs, flip, is_true.
   destruct bn as [n|]; destruct le; destruct sl as [[|]|]; cbn [negb andb orb];
-    repeat (case_if; cbn [negb andb orb] in *); try reflexivity; try discriminate; try lia.
+    repeat (case_if; cbn [negb andb orb] in *); try reflexivity; try discriminate; try lia; try (f_equal; lia).
 Qed.
 
 Theorem tie_get_startbit :
@@ -18,7 +18,7 @@ Theorem tie_get_startbit :
 Proof.
   intros. unfold gen_get_startbit, get_startbit, numbering_differs, flip, is_true.
   destruct bn as [n|]; destruct le; destruct sl as [[|]|]; cbn [negb andb orb];
-    repeat (case_if; cbn [negb andb orb] in *); try reflexivity; try discriminate; try lia.
+    repeat (case_if; cbn [negb andb orb] in *); try reflexivity; try discriminate; try lia; try (f_equal; lia).
 Qed.
 Print Assumptions tie_set_startbit.
 Print Assumptions tie_get_startbit.
